@@ -154,6 +154,22 @@ def gen_live(ctx, per_variant, n_match):
             flt = gen_filter(r, pool)
             peers = sorted(set(r.choice(pool) for _ in range(r.randrange(2, 6))))
             lines.append(f'{api} {variant} {ctor} 127.0.0.1 {flt} {",".join(peers)}')
+    # ONE C-ABI filter object, several servers created from it (every order of the three variants, pairs, twice the same),
+    # optionally rodbus_address_filter_add afterwards, then the object is destroyed; only then the servers are probed
+    import itertools
+    orders = [list(o) for o in itertools.permutations(['tcp', 'tls', 'tlsauthz'])] + [['tcp', 'tcp'], ['tls', 'tcp'], ['tlsauthz', 'tls'], ['tcp']]
+    for order in orders:
+        for flt, added in [('set=127.0.0.2', '-'), ('wc=127.0.0.2', '-'), ('exact=127.0.0.2', '127.0.0.3'), ('set=127.0.0.2+127.0.0.9', '127.0.0.1'),
+                           ('wc=127.0.*.3', '127.0.0.1')]:
+            if r.random() < (1.0 if order == ['tcp', 'tls', 'tlsauthz'] else 0.4):
+                lines.append(f'reuse {"+".join(order)} 127.0.0.1 {flt} {added} 127.0.0.1,127.0.0.2,127.0.0.3')
+    for _ in range(per_variant):
+        pool = [rand_v4(r) for _ in range(4)] + ['127.0.0.1', '127.0.0.2']
+        flt = gen_filter(r, pool)
+        order = [r.choice(['tcp', 'tls', 'tlsauthz']) for _ in range(r.choice([2, 3]))]
+        added = r.choice(['-', '-', r.choice(pool)])
+        peers = sorted(set(r.choice(pool) for _ in range(r.randrange(2, 5))))
+        lines.append(f'reuse {"+".join(order)} 127.0.0.1 {flt} {added} {",".join(peers)}')
     # `matches` on random filters / addresses: cheapest variant, many filters
     for _ in range(n_match):
         pool = [rand_v4(r) for _ in range(6)]
@@ -299,9 +315,49 @@ def run(ctx):
     n_live_bad = 0
     n_probes = 0
     outcome_classes = {}
+    reuse = [ln for ln in live if ln.startswith('reuse ')]
+    live = [ln for ln in live if not ln.startswith('reuse ')]
+    n_reuse_bad = 0
+    if reuse:
+        rimpl = ctx.harness('filter_live', reuse, args=[vlib.REPO], timeout=900)
+        rparsed = [ln.split() for ln in reuse]
+        rmodel = model_eval(ctx, ['Base.Show', 'Model.Filter'], LIVE_FN,
+                            [f'({coq_filter(p[3])}, [{"; ".join(coq_ip(seen_as(p[2], x)) for x in p[5].split(","))}])' for p in rparsed],
+                            case_type='fspec * list ip', preamble=LIVE_PRE, per_shard=100)
+        for ln, p, i, m in zip(reuse, rparsed, rimpl, rmodel):
+            _, variants, bind, flt, added, peers = p
+            peers = peers.split(',')
+            # every server keeps the filter it was created with: later servers, a later add, the destroy change nothing
+            want = ','.join('S' if spec_admits(flt, seen_as(bind, x)) else 'C' for x in peers)
+            parts = [x for x in i.split(';') if not x.startswith('add=')]
+            n_probes += len(parts) * len(peers)
+            for k2, v in enumerate(variants.split('+')):
+                key_cls = f'ffi.reuse.{v}.server#{min(k2 + 1, 3)}'
+                outcome_classes[key_cls] = outcome_classes.get(key_cls, 0) + 1
+            if i.startswith('FAIL') or i == 'PANIC' or len(parts) != len(variants.split('+')):
+                n_reuse_bad += 1
+                ctx.oblige('live-scenario-ran', False, f'{ln}: {i}')
+                continue
+            for k2, (v, part) in enumerate(zip(variants.split('+'), parts)):
+                got = part.split(':', 1)[1]
+                if got != want:
+                    n_reuse_bad += 1
+                    if n_reuse_bad <= 3:
+                        gi, wi = got.split(','), want.split(',')
+                        j = next((x for x in range(len(wi)) if x >= len(gi) or gi[x] != wi[x]), 0)
+                        small = f'reuse {"+".join(variants.split("+")[:k2 + 1])} {bind} {flt} {added} {peers[j]}'
+                        what = 'is SERVED' if wi[j] == 'C' and gi[j:j + 1] == ['S'] else f'gets {gi[j] if j < len(gi) else "?"} instead of {wi[j]}'
+                        ctx.violation(f'filter-object-reused.server#{k2 + 1}.{v}',
+                                      f'one rodbus_address_filter_t ({flt}) used for {variants.replace("+", ", then ")}' + (f', then rodbus_address_filter_add({added})' if added != '-' else '') +
+                                      f', then destroyed: server #{k2 + 1} ({v}): peer {peers[j]} {what}; every server must keep the filter it was created with',
+                                      {'cases': [['live', small]], 'impl': i, 'spec': want, 'model': m, 'original_case': ln})
+                elif m is not None and m != want:
+                    n_reuse_bad += 1
+                    ctx.violation('matches-model-differs-from-impl', f'{ln}: model {m}, implementation and Spec {want}', {'cases': [['live', ln]], 'impl': i, 'spec': want, 'model': m}, no_failing_input=True)
+        live_samples = [['live', ln, i] for ln, i in list(zip(reuse, rimpl))[:2]]
     if live:
         impl = ctx.harness('filter_live', live, args=[vlib.REPO], timeout=900)
-        live_samples = [['live', ln, i] for ln, i in zip(live, impl)]
+        live_samples = live_samples + [['live', ln, i] for ln, i in zip(live, impl)]
         parsed = []
         for ln in live:
             api, variant, ctor, bind, flt, peers = ln.split()
@@ -339,6 +395,7 @@ def run(ctx):
                     ctx.violation('matches-model-differs-from-impl', f'{ln}: peer {peer}: model {mm}, implementation and Spec {want}',
                                   {'cases': [['live', ln]], 'impl': g, 'spec': want, 'model': mm}, no_failing_input=True)
     ctx.oblige('correspondence:live-servers-all-variants', n_live_bad == 0, f'{n_live_bad} disagreements on {n_probes} probes')
+    ctx.oblige('correspondence:one-filter-object-several-servers', n_reuse_bad == 0, f'{n_reuse_bad} disagreements on {len(reuse)} scenarios')
 
     if not ctx.replay:
         missing = [f'{a}.{v}.{c}.{w}' for a, v, c in VARIANTS for w in 'SC' if outcome_classes.get(f'{a}.{v}.{c}.{w}', 0) < 3]
@@ -350,6 +407,10 @@ def run(ctx):
         api, variant, ctor, bind, flt, peers = ln.split()
         for x in peers.split(','):
             probes.add((api, variant, ctor, bind, flt, x))
+    for ln in reuse:
+        _, variants, bind, flt, added, peers = ln.split()
+        for x in peers.split(','):
+            probes.add(('ffi-reuse', variants, added, bind, flt, x))
     classes.update({'strings_by_field_count': {str(k): v for k, v in sorted(by_fields.items())}, 'live_expected_outcomes': outcome_classes})
     ctx.coverage.update({
         'evaluations': len(strings) + n_probes,
@@ -359,6 +420,7 @@ def run(ctx):
         'input_classes': classes,
         'exhaustive': False,
         'exhaustive_sub_sweep': f'all {len(sweep(SWEEP_QUICK if ctx.quick() else SWEEP_THOROUGH))} four-field strings over the lattice {SWEEP_QUICK if ctx.quick() else SWEEP_THOROUGH} are included (complete enumeration of that sub-lattice); the rest is sampled',
-        'live_scenarios': len(live),
+        'live_scenarios': len(live) + len(reuse),
+        'filter_object_reuse_scenarios': len(reuse),
         'live_probes': n_probes,
     })
